@@ -121,6 +121,14 @@ def cases(rng, seeds):
                             P("config", m=m, nodes=[inv[x] for x in lab], maxdeg=[[inv[x], d] for x, d in k.items()]),
                             (lambda k=k, m=m, s=s: xgi.uniform_hypergraph_configuration_model(dict(k), m, seed=s)), inv))
     for s in seeds:
+        # prescribed degrees / sizes may be 0: the node is still part of the requested node set
+        k1z = {0: 2, 1: 0, 2: 2, 3: 1, 4: 0}
+        k2z = {0: 3, 1: 0, 2: 2}
+        out.append((f"chung_lu_hypergraph({k1z},{k2z})", P("bipartite", nodes=list(k1z), sizes=list(k2z)),
+                    lambda s=s: xgi.chung_lu_hypergraph(k1z, k2z, seed=s)))
+        out.append((f"dcsbm_hypergraph({k1z},{k2z})", P("bipartite", nodes=list(k1z), sizes=list(k2z)),
+                    lambda s=s: xgi.dcsbm_hypergraph(k1z, k2z, {i: i % 2 for i in k1z}, {i: i % 2 for i in k2z},
+                                                     np.array([[3, 1], [1, 1]]), seed=s)))
         k1 = {0: 1, 1: 2, 2: 3, 3: 2}
         k2 = {0: 3, 1: 3, 2: 2}
         out.append((f"chung_lu_hypergraph({k1},{k2})", P("bipartite", nodes=list(k1), sizes=list(k2)),
@@ -184,6 +192,10 @@ def cases(rng, seeds):
                             lambda G=G, mo=mo, s=s: xgi.flag_complex(G, max_order=mo, ps=[0.5] * (mo - 1), seed=s)))
         out.append((f"flag_complex_d2(G{links})", P("flag", nodes=nodes, links=links, d=2, norepeat=True),
                     lambda G=G: xgi.flag_complex_d2(G)))
+        for p2 in (0, 1):
+            out.append((f"flag_complex_d2(G{links},p2={p2})", P("flag", nodes=nodes, links=links, d=2, zero=[3] if p2 == 0 else [],
+                                                                 one=[3] if p2 == 1 else []),
+                        lambda G=G, p2=p2: xgi.flag_complex_d2(G, p2=p2, seed=1)))
         for s in seeds[:3]:
             out.append((f"flag_complex_d2(G{links},p2=0.5)", P("flag", nodes=nodes, links=links, d=2),
                         lambda G=G, s=s: xgi.flag_complex_d2(G, p2=0.5, seed=s)))
